@@ -99,6 +99,20 @@ pub fn check_values(code: u16, vals: &[Val]) -> Vec<Finding> {
             },
         },
     }
+    // (b') the compressing serialiser must carry the same fields in the same order
+    let r = guarded(|| to_lib(&p).and_then(|l| l.build_bytes_vec_compressed().map_err(|e| format!("{:?}", e))));
+    match r {
+        Err(pn) => out.push(finding(format!("C10|{}|build-compressed|{}", mn, pn.sig()), format!("{:?}", pn), case.clone())),
+        Ok(Err(e)) => out.push(finding(format!("C10|{}|build-compressed|error", mn), e, case.clone())),
+        Ok(Ok(bytes)) => match decode_packet(&bytes) {
+            Err(e) => out.push(finding(format!("C10|{}|build-compressed|undecodable", mn), format!("{:?}: {}", e, crate::engine::truncate(&hex(&bytes), 300)), case.clone())),
+            Ok((d, _)) => {
+                for (tag, det) in diff(&p, &d) {
+                    out.push(finding(format!("C10|{}|build-compressed|{}", mn, tag), format!("compressed build decodes differently: {}", det), case.clone()));
+                }
+            }
+        },
+    }
     out
 }
 
